@@ -8,17 +8,30 @@ from harness.common import Ck, coq_Z_list, coq_list
 from translate import c08_sites
 
 MANIFEST = dict(
-    technique='Rocq proof (allocator refinement to a finite set, lifecycle NoDup invariants by induction over histories of several maps incl. copy/parse/collapse, nav-node ID lifecycle, fixup indexes) + ast site census + vm_compute correspondences',
-    text='Theorems in Props/C08.v: the IDMan scan terminates and returns a positive unused ID keeping the search_pos invariant; from every invariant state IDMan is observationally equal to a plain finite set that hands out the desired ID if positive and free, else the least free positive ID (search_pos is unobservable); for every history over any number of maps of construction with arbitrary desired IDs, copy() within and across maps, removal, re-adding, destruction, VMF.parse of documents with colliding/missing/non-positive IDs and collapse_one, the existing objects of one kind that belong to one map have pairwise distinct positive IDs, provided IDs are released only by destructors and every copy site passes the destination map down; nav-node IDs held by existing entities are distinct and positive after every history of key set/delete/copy/remove/re-add/destroy provided remove_ent does not release them; fixup indexes stay distinct and positive. The premises (release sites, ID stores, map argument of every constructor/copy call inside copy() methods and collapse_one, node-ID shapes, fixup acceptance test / deferral / start index, hint guard) are regenerated from vmf.py/instancing.py on every run and kernel-checked; IDMan, EntityFixup, the entity lifecycle, three-map histories of entities/brushes/faces, node-ID histories and VMF.parse results are compared with the models on random inputs (exact IDs); histories over all ID kinds including collapse_one are searched on real VMF objects.',
-    note='Trusted: Coq kernel + vm_compute, translate/c08_sites.py (which call sites matter: copy() methods of the five ID classes and collapse_one; other functions that build objects from a foreign map are not in the census), hand models SM/IdMan.v, SM/IdLife.v, SM/IdWorld.v, SM/IdNode.v (tied by differential runs), CPython refcount/gc for __del__ timing. The kinds are independent single-kind models (each class uses the manager of its kind: census obligation). Node IDs reserved by Instance.fixup_key are never released (leak, not modelled). Direct writes to Entity._keys / the deprecated Entity.keys dict bypass the node-ID rule. Maps opened with preserve_ids=True are exempt by definition.',
+    technique='Rocq proof (allocator refinement to a finite set, lifecycle NoDup invariants by induction over histories of several maps incl. copy/parse/collapse, nested Entity/Solid/Side world with bundled events incl. collapse_one, nav-node ID lifecycle in one and several maps, fixup indexes over whole histories) + ast site censuses with semantic normalisation + vm_compute correspondences',
+    text='Theorems in Props/C08.v: the IDMan scan terminates and returns a positive unused ID keeping the search_pos invariant; from every invariant state IDMan is observationally equal to a plain finite set that hands out the desired ID if positive and free, else the least free positive ID (search_pos is unobservable); for every history over any number of maps of construction with arbitrary desired IDs, copy() within and across maps, removal, re-adding, destruction, VMF.parse of documents with colliding/missing/non-positive IDs and collapse_one, the existing objects of one kind that belong to one map have pairwise distinct positive IDs, provided IDs are released only by destructors and every copy site passes the destination map down; the same for entities, their brushes and the faces of those as ONE world whose events are the bundles of constructor/copy/remove/destructor calls made for a top-level object and its parts (order and desired IDs of the nested calls are part of the model); nav-node IDs held by existing entities are distinct and positive after every history of key set/delete/copy/remove/re-add/destroy provided remove_ent does not release them and copies register their node ID, in one map and over several maps incl. cross-map copies, IDs reserved by Instance.fixup_key and collapse_one of node entities (copy all, then reserve and reassign every copied node ID); replaceNN indexes of one entity are distinct and positive after the constructor on any list and every sequence of set/setdefault/update, del/pop, clear, rebuild by Entity.copy and copy/deepcopy/pickle. The premises (release sites, ID stores, map argument of every constructor/copy call inside copy() methods and collapse_one, every write into Entity._keys and into the fixup index table, node-ID shapes, fixup acceptance test / deferral / start index, hint guard) are regenerated from the source on every run by a fail-closed translator that normalises names, test spellings, branch order, single-use locals, helper functions and loop forms, and are kernel-checked; IDMan, EntityFixup histories, the entity lifecycle, three-map histories of entities/brushes/faces/brush groups/visgroups (per kind and as bundled events), node-ID histories in one map and over three maps (with the real collapse_one) and VMF.parse results are compared with the models on random inputs (exact IDs); histories over all ID kinds including collapse_one are searched on real VMF objects.',
+    note='Trusted: Coq kernel + vm_compute, translate/c08_sites.py, c08_keys.py, c08_norm.py (which call sites matter: copy() methods of the five ID classes and collapse_one; other functions that build objects from a foreign map are not in the census), hand models SM/IdMan.v, SM/IdLife.v, SM/IdFixupHist.v, SM/IdWorld.v, SM/IdNest.v, SM/IdNode.v, SM/IdNodeMaps.v (tied by differential runs), CPython refcount/gc for __del__ timing. Brush groups and visgroups are independent single-kind models (each class uses the manager of its kind: census obligation); their IDs are never released (no destructor: leak, modelled as such). collapse_one is an event of the nested model (which brushes and entities it copies, in which order, is computed by the model and compared with the real function; hidden objects, visgroup handling and the keyvalue rewriting are searched, not modelled). Node IDs reserved by Instance.fixup_key are never released (a leak; modelled as the events NReserve / MReserve and compared). In the several-maps node model a nodeid key is a node ID for the entity classes whose FGD type says so (the correspondence sets it on info_node only). The deprecated Entity.keys dict (returned by reference) and a table handed to EntityFixup.__setstate__ bypass the censuses (listed as exposures). Maps opened with preserve_ids=True are exempt by definition.',
 )
 
-IMPORTS = ['SV.SM.IdMan', 'SV.SM.IdManSpec', 'SV.SM.IdLife', 'SV.SM.IdWorld', 'SV.SM.IdNode', 'SV.Gen.IdSites_gen', 'SV.Props.C08',
+IMPORTS = ['SV.SM.IdMan', 'SV.SM.IdManSpec', 'SV.SM.IdLife', 'SV.SM.IdFixupHist', 'SV.SM.IdWorld', 'SV.SM.IdNest', 'SV.SM.IdNode', 'SV.SM.IdNodeMaps', 'SV.Gen.IdSites_gen', 'SV.Props.C08',
            'Coq.ZArith.ZArith', 'Coq.Lists.List']
 PRE = '''Import ListNotations. Open Scope Z_scope.
 Fixpoint zl_eqb (a b : list Z) : bool := match a, b with [] , [] => true | x :: a', y :: b' => Z.eqb x y && zl_eqb a' b' | _, _ => false end.
 Fixpoint bad_idx {A} (f : A -> bool) (n : Z) (l : list A) : list Z := match l with [] => [] | x :: r => (if f x then [] else [n]) ++ bad_idx f (n + 1) r end.
 '''
+
+
+def eval_bad(ck: Ck, name: str, preamble: str, exprs: list[str], per_call: int = 8) -> list[list[int]] | None:
+    """Evaluate `bad_idx ...` expressions, several per coqc process (starting a process that loads the development costs
+    more than evaluating a few hundred cases).  Returns the list of disagreeing indexes per expression, or None."""
+    from harness.common import parse_coq_N_list
+    out: list[list[int]] = []
+    for lo in range(0, len(exprs), per_call):
+        vals = ck.coq_eval(IMPORTS, exprs[lo:lo + per_call], name=name, preamble=preamble)
+        if vals is None:
+            return None
+        out += [parse_coq_N_list(v) for v in vals]
+    return out
 
 
 # ------------------------------------------------------------------------------------------------ allocator
@@ -91,11 +104,21 @@ def corr_idman(ck: Ck) -> None:
     corpus = [[('Get', -1), ('Discard', 1), ('Get', -1), ('Discard', 1), ('Get', -1)],
               [('Get', 5), ('Get', 5), ('Discard', 0), ('Get', -1), ('Get', -1)],
               [('Get', 2), ('Get', 1), ('Get', -1), ('Remove', 9), ('Discard', 2), ('Get', 0), ('Len',)]]
+    todo = []
     for i in range(n):
         ops = corpus[i] if i < len(corpus) else gen_idman_ops(ck.rng, ck.rng.choice([3, 8, 20, 45]))
         # IDMan(existing): any starting set (also non-positive members); then a sweep of __contains__ over the range
         existing = [] if i < len(corpus) or ck.rng.random() < 0.5 else [ck.rng.randint(-2, 9) for _ in range(ck.rng.choice([1, 3, 6]))]
-        ops = list(ops) + [('Contains', x) for x in range(-2, 14)] + [('Len',)]
+        todo.append((list(ops) + [('Contains', x) for x in range(-2, 14)] + [('Len',)], existing))
+    if ck.budget(0, 1):
+        # thorough tier (or a broken tie): EVERY sequence of up to 4 operations over a small alphabet, from the empty manager
+        import itertools
+        alpha = [('Get', d) for d in (-1, 0, 1, 2, 3)] + [('Discard', e) for e in (0, 1, 2, 3)] + [('Remove', 1), ('Remove', 2), ('Clear',)]
+        for length in range(5):
+            for seq in itertools.product(alpha, repeat=length):
+                todo.append((list(seq) + [('Contains', x) for x in range(0, 5)] + [('Len',)], []))
+                ck.hist('idman_exhaustive', length)
+    for ops, existing in todo:
         problems: list = []
         exp = impl_idman(ops, existing, problems)
         cases.append((ops, exp, existing))
@@ -114,19 +137,21 @@ def corr_idman(ck: Ck) -> None:
             ck.seen(('idman', tuple(ops)))
     ck.sample({'idman_ops': [coq_op(o) for o in cases[3][0]], 'impl_results': cases[3][1]})
     bad: list[int] = []
+    exprs = []
     for lo in range(0, len(cases), 500):
         part = cases[lo:lo + 500]
         lit = coq_list(f'(({coq_Z_list(ex)}, {coq_list(coq_op(o) for o in ops)}), {coq_Z_list(exp)})' for ops, exp, ex in part)
-        vals = ck.coq_eval(IMPORTS, [f'bad_idx (fun c : (list Z * list op) * list Z => zl_eqb (run_res idman_lower_guard (init_from (fst (fst c))) (snd (fst c))) (snd c)) 0 {lit}'],
-                           name='idman', preamble=PRE)
-        if vals is None:
-            ck.obligation('correspondence:idman', False, 'model could not be evaluated')
-            ck.tie_broken.append('correspondence IDMan: model evaluation failed')
-            return
-        from harness.common import parse_coq_N_list
-        bad += [lo + i for i in parse_coq_N_list(vals[0])]
+        exprs.append(f'bad_idx (fun c : (list Z * list op) * list Z => zl_eqb (run_res idman_lower_guard (init_from (fst (fst c))) (snd (fst c))) (snd c)) 0 {lit}')
+    res = eval_bad(ck, 'idman', PRE, exprs, per_call=12)
+    if res is None:
+        ck.obligation('correspondence:idman', False, 'model could not be evaluated')
+        ck.tie_broken.append('correspondence IDMan: model evaluation failed')
+        return
+    for c, idxs in enumerate(res):
+        bad += [c * 500 + i for i in idxs]
     ck.obligation('correspondence:idman', not bad,
-                  f'{len(cases)} operation sequences, model (vm_compute) vs srctools.vmf.IDMan: {len(bad)} disagreements')
+                  f'{len(cases)} operation sequences ({n} random' + (f' + all {len(cases) - n} of length <= 4 over 12 operations' if len(cases) > n else '')
+                  + f'), model (vm_compute) vs srctools.vmf.IDMan: {len(bad)} disagreements')
     if bad:
         ops, exp, ex = min((cases[i] for i in bad), key=lambda c: len(c[0]))
         ck.tie_broken.append('correspondence IDMan (SM/IdMan.v run vs srctools.vmf.IDMan)')
@@ -134,58 +159,133 @@ def corr_idman(ck: Ck) -> None:
 
 
 # ------------------------------------------------------------------------------------------------ fixups
+def run_fixup_case(init, ops, via_entity: bool):
+    """One EntityFixup history on the implementation -> sorted [(variable number, index)].
+
+    ops: ('set'|'setdefault'|'update'|'del'|'pop'|'clear'|'rebuild'|'copy'|'deepcopy'|'pickle', variable number)."""
+    import copy as _copy
+    import pickle
+    from srctools.vmf import VMF, Entity, EntityFixup, FixupValue
+    vals = [FixupValue(f'v{v}', 'x', ind) for v, ind in init]
+    ent = None
+    if via_entity:
+        ent = Entity(VMF(), {'classname': 'func_instance'}, fixup=vals)
+        fx = ent.fixup
+    else:
+        fx = EntityFixup(vals)
+    for o, v in ops:
+        if o == 'set':
+            fx[f'v{v}'] = 'y'
+        elif o == 'setdefault':
+            fx.setdefault(f'$V{v}', 'z')
+        elif o == 'update':
+            fx.update({f'v{v}': 'u'})
+        elif o == 'del':
+            del fx[f'V{v}']
+        elif o == 'pop':
+            fx.pop(f'v{v}', None)
+        elif o == 'clear':
+            fx.clear()
+        elif o == 'rebuild':        # what Entity.copy() does with the fixups
+            if ent is not None:
+                ent = ent.copy()
+                fx = ent.fixup
+            else:
+                fx = EntityFixup(fx.copy_values())
+        elif o == 'copy':
+            fx = _copy.copy(fx)
+            ent = None
+        elif o == 'deepcopy':
+            fx = _copy.deepcopy(fx)
+            ent = None
+        elif o == 'pickle':
+            fx = pickle.loads(pickle.dumps(fx))
+            ent = None
+    return sorted((int(f.var.lstrip('$')[1:]), f.id) for f in fx._fixup.values())
+
+
+_FX_COQ = {'set': 'FSet', 'setdefault': 'FSet', 'update': 'FSet', 'del': 'FDel', 'pop': 'FDel'}
+
+
 def corr_fixups(ck: Ck, require_positive: bool, defer: bool = True) -> None:
-    from srctools.vmf import EntityFixup, FixupValue
     n = ck.budget(300, 3000)
     cases = []
+    todo = []
     for i in range(n):
         rng = ck.rng
         init = [(rng.randint(0, 5), rng.choice([0, -1, 1, 1, 2, 3, 4, 7, 12])) for _ in range(rng.choice([0, 1, 3, 6]))]
-        ops = [(rng.choice(['set', 'set', 'del']), rng.randint(0, 7)) for _ in range(rng.choice([0, 2, 6, 12]))]
-        fx = EntityFixup([FixupValue(f'v{v}', 'x', ind) for v, ind in init])
-        for o, v in ops:
-            if o == 'set':
-                fx[f'v{v}'] = 'y'
+        ops = []
+        for _ in range(rng.choice([0, 2, 6, 12])):
+            r = rng.random()
+            if r < 0.45:
+                ops.append((rng.choice(['set', 'set', 'setdefault', 'update']), rng.randint(0, 7)))
+            elif r < 0.70:
+                ops.append((rng.choice(['del', 'del', 'pop']), rng.randint(0, 7)))
+            elif r < 0.74:
+                ops.append(('clear', 0))
+            elif r < 0.88:
+                ops.append(('rebuild', 0))
             else:
-                del fx[f'V{v}']
-        got = sorted((int(f.var[1:]), f.id) for f in fx._fixup.values())
+                ops.append((rng.choice(['copy', 'deepcopy', 'pickle']), 0))
+        todo.append((init, ops, rng.random() < 0.4))
+    if ck.budget(0, 1):
+        # thorough tier (or a broken tie): EVERY constructor argument of up to 2 values over 2 variables x indexes {-1, 0, 1, 2}
+        # followed by EVERY sequence of up to 2 operations, and every argument of 3 values followed by at most one operation
+        import itertools
+        vals = [(v, i) for v in (0, 1) for i in (-1, 0, 1, 2)]
+        alpha = [('set', 0), ('set', 2), ('del', 0), ('del', 1), ('clear', 0), ('rebuild', 0), ('copy', 0)]
+        for n_init, n_ops in ((0, 2), (1, 2), (2, 2), (3, 1)):
+            for init_t in itertools.product(vals, repeat=n_init):
+                for k in range(n_ops + 1):
+                    for ops_t in itertools.product(alpha, repeat=k):
+                        todo.append((list(init_t), list(ops_t), False))
+                        ck.hist('fixup_exhaustive(init,ops)', (n_init, k))
+    for init, ops, via_entity in todo:
+        got = run_fixup_case(init, ops, via_entity)
         cases.append((init, ops, got))
         ck.count('fixup_histories')
+        for o, _ in ops:
+            ck.hist('fixup_ops', o)
         if len(got) > 1:
             ck.seen(('fixup', tuple(init), tuple(ops)))
         ids = [g[1] for g in got]
         if len(set(ids)) != len(ids) or any(x <= 0 for x in ids):
             key = 'fixup-index-nonpositive-from-init' if all(x > 0 for _, x in init) is False and len(set(ids)) == len(ids) else 'fixup-index-duplicate'
             ck.violation(key, 'EntityFixup holds a duplicate or non-positive replaceNN index',
-                         {'init': init, 'ops': ops, 'result': got})
+                         {'init': init, 'ops': ops, 'via_entity': via_entity, 'result': got,
+                          'how': 'checks.c08.run_fixup_case(init, ops, via_entity)'})
     ck.sample({'fixup_init(var,index)': cases[-1][0], 'ops': cases[-1][1], 'impl_result_sorted': cases[-1][2]})
     rp = ('true' if require_positive else 'false') + (' true' if defer else ' false')
     pre = PRE + '''
 Fixpoint ins (p : Z * Z) (l : list (Z * Z)) := match l with [] => [p] | q :: r => if (fst p <? fst q) then p :: l else q :: ins p r end.
 Definition srt (l : list (Z * Z)) := fold_right ins [] l.
-Definition fx_run (rp df : bool) (c : list (Z * Z) * list (bool * Z)) : list (Z * Z) :=
-  srt (fold_left (fun (f : fixups) (o : bool * Z) => if fst o then fx_set (snd o) f else fx_del (snd o) f) (snd c) (fx_init rp df (fst c))).
+Definition fx_run (rp df : bool) (c : list (Z * Z) * list fxop) : list (Z * Z) := srt (fx_hist rp df (fst c) (snd c)).
 Fixpoint pl_eqb (a b : list (Z * Z)) : bool := match a, b with [], [] => true | (x, y) :: a', (u, v) :: b' => Z.eqb x u && Z.eqb y v && pl_eqb a' b' | _, _ => false end.
 '''
     def pairs(l):
         return coq_list(f'({a}, {b})' if b >= 0 else f'({a}, ({b}))' for a, b in l)
-    bad = []
+
+    def cop(o, v):
+        if o in _FX_COQ:
+            return f'{_FX_COQ[o]} {v}'
+        return {'clear': 'FClear', 'rebuild': 'FRebuild'}.get(o, 'FCopy')
+    exprs = []
     for lo in range(0, len(cases), 500):
         part = cases[lo:lo + 500]
-        lit = coq_list(
-            f'(({pairs(i)}, {coq_list("(%s, %d)" % ("true" if o == "set" else "false", v) for o, v in ops)}), {pairs(g)})'
-            for i, ops, g in part)
-        vals = ck.coq_eval(IMPORTS, [f'bad_idx (fun c : (list (Z * Z) * list (bool * Z)) * list (Z * Z) => pl_eqb (fx_run {rp} (fst c)) (snd c)) 0 {lit}'], name='fixup', preamble=pre)
-        if vals is None:
-            ck.obligation('correspondence:fixup', False, 'model could not be evaluated')
-            ck.tie_broken.append('correspondence EntityFixup: model evaluation failed')
-            return
-        from harness.common import parse_coq_N_list
-        bad += [lo + i for i in parse_coq_N_list(vals[0])]
+        lit = coq_list(f'(({pairs(i)}, {coq_list(cop(o, v) for o, v in ops)}), {pairs(g)})' for i, ops, g in part)
+        exprs.append(f'bad_idx (fun c : (list (Z * Z) * list fxop) * list (Z * Z) => pl_eqb (fx_run {rp} (fst c)) (snd c)) 0 {lit}')
+    res = eval_bad(ck, 'fixup', pre, exprs, per_call=12)
+    if res is None:
+        ck.obligation('correspondence:fixup', False, 'model could not be evaluated')
+        ck.tie_broken.append('correspondence EntityFixup: model evaluation failed')
+        return
+    bad = [c * 500 + i for c, idxs in enumerate(res) for i in idxs]
     ck.obligation('correspondence:fixup', not bad,
-                  f'{len(cases)} EntityFixup histories, model fx_init/fx_set/fx_del vs implementation: {len(bad)} disagreements')
+                  f'{len(cases)} EntityFixup histories ({n} random' + (f' + all {len(cases) - n} small ones' if len(cases) > n else '')
+                  + ': constructor, set/setdefault/update, del/pop, clear, rebuild via copy_values/Entity.copy, '
+                  f'copy/deepcopy/pickle), model fx_hist vs implementation: {len(bad)} disagreements')
     if bad:
-        ck.tie_broken.append('correspondence EntityFixup (SM/IdLife.v fx_* vs srctools.vmf.EntityFixup)')
+        ck.tie_broken.append('correspondence EntityFixup (SM/IdFixupHist.v fx_hist vs srctools.vmf.EntityFixup)')
         ck.extra['fixup_disagreement'] = {'case': cases[bad[0]]}
 
 
@@ -242,6 +342,7 @@ def run_history(hist: list[tuple], record_release=None):
     for _ in range(3):  # pre-populate so that ID ranges of the two maps overlap
         vmf2.add_brush(vmf2.make_prism(Vec(0, 0, 0), Vec(8, 8, 8)).solid)
         vmf2.create_ent('info_target')
+        vmf2.create_ent('info_node', nodeid='1')
         g2 = EntityGroup(vmf2)
         vmf2.groups[g2.id] = g2
         vmf2.vis_tree.append(VisGroup(vmf2, 'own'))
@@ -293,7 +394,7 @@ def run_history(hist: list[tuple], record_release=None):
                 objs.append([kind, o, True])
             elif op == 'xcopy':     # copy into the other map
                 k = ev[1] % len(objs) if objs else None
-                if k is None or objs[k][1] is None or objs[k][0] in ('vischild', 'node'):
+                if k is None or objs[k][1] is None or objs[k][0] == 'vischild':
                     continue
                 kind, src, _ = objs[k]
                 if kind == 'group':
@@ -307,7 +408,7 @@ def run_history(hist: list[tuple], record_release=None):
                     del o
                     continue
                 o = src.copy(vmf_file=vmf2)
-                if kind in ('ent', 'brushent'):
+                if kind in ('ent', 'brushent', 'node'):
                     vmf2.add_ent(o)
                 else:
                     vmf2.add_brush(o)
@@ -560,7 +661,16 @@ Definition wobs (w : wworld) : list Z :=
 Definition wprobe (w : wworld) (m : nat) : Z := match get_id (-1) (man_of w m) with Some (i, _) => i | None => -3 end.
 Definition wfull (k : kind) (es : list wev) : list Z :=
   let w := wrun (release_on_remove k) (copy_to_dest k) es in wobs w ++ [wprobe w 0%nat; wprobe w 1%nat; wprobe w 2%nat].
+Definition wobs3 (w : wworld) : list Z := wobs w ++ [wprobe w 0%nat; wprobe w 1%nat; wprobe w 2%nat].
+Definition tfull (es : list tev) : list Z * list Z * list Z :=
+  let w := trun (release_on_remove KEnt) (release_on_remove KSolid) (release_on_remove KFace)
+                (copy_to_dest KEnt) (copy_to_dest KSolid) (copy_to_dest KFace) es in
+  let lists m := List.map Z.of_nat (tlisted_of w m false) ++ [-1] ++ List.map Z.of_nat (tlisted_of w m true) ++ [-2] in
+  (wobs3 (tE w), wobs3 (tS w), wobs3 (tF w) ++ [-5] ++ lists 0%nat ++ lists 1%nat ++ lists 2%nat).
 '''
+
+
+WORLD_KINDS = ('KEnt', 'KSolid', 'KFace', 'KGroup', 'KVis')
 
 
 class _Tracked:
@@ -589,14 +699,18 @@ def gen_world_case(rng: random.Random, n_ev: int):
 
     Returns ({kind: [event strings]}, {kind: expected observation list}, description, per-map ID scans).  Every
     nested object gets its own events in the stream of its kind, in the order the implementation constructs them."""
-    from srctools.vmf import VMF, Entity, Solid, Side
+    from srctools.vmf import VMF, Entity, Solid, Side, EntityGroup, VisGroup
     from srctools.math import Vec
     maps = [VMF(), VMF(), VMF()]
-    ev: dict[str, list[str]] = {'KEnt': [], 'KSolid': [], 'KFace': []}
-    tr: dict[str, list[_Tracked]] = {'KEnt': [], 'KSolid': [], 'KFace': []}
+    ev: dict = {k: [] for k in WORLD_KINDS}
+    tr: dict[str, list[_Tracked]] = {k: [] for k in WORLD_KINDS}
     face_dels: list[int] = []             # face IDs released by Side.__del__ (in whichever map)
+    tev: list[str] = []                   # the same history as bundled events on top-level objects (SM/IdNest.v)
+    nest_ok = True
+    nest_flag: list[str] = []
     for m, v in enumerate(maps):          # the constructor's worldspawn takes an entity ID in every map
         ev['KEnt'].append(f'WCreate {m}%nat (-1)')
+        tev.append(f'TCreateSpawn {m}%nat')            # top-level objects 0..2 of the nested model
         tr['KEnt'].append(_Tracked(v.spawn, m))
 
         def spy(e, orig=v.face_id.discard):
@@ -632,7 +746,174 @@ def gen_world_case(rng: random.Random, n_ev: int):
         return (('KEnt', [t['ent']] if t['ent'] is not None else []), ('KSolid', [s for s, _ in t['solids']]),
                 ('KFace', [f for _, fs in t['solids'] for f in fs]))
 
+    # brush groups and visgroups (round 3).  No destructor releases their IDs: dropping the last reference is not an
+    # event of the model, the ID stays taken (leak) -- the probes of the next free ID at the end observe exactly that.
+    gtops: list[dict] = []      # kind 'group': tree = (index, []); kind 'vis': tree = (index, [child trees])
+
+    def new_vis(m, d, depth):
+        kids = [new_vis(m, rng.choice([-1, -1, 1, 2, 3]), depth + 1) for _ in range(rng.choice([0, 0, 1, 2]) if depth < 2 else 0)]
+        v = VisGroup(maps[m], f'vis{len(tr["KVis"])}', d, Vec(255, 255, 255), [k[0] for k in kids])
+        ev['KVis'].append(f'WCreate {m}%nat {_zs(d)}')
+        tr['KVis'].append(_Tracked(v, m))
+        return v, (len(tr['KVis']) - 1, [k[1] for k in kids])
+
+    def track_vis_copy(src_tree, cobj, dest, d):
+        # VisGroup.copy builds the copies of the children (fresh IDs) before the constructor of the copy runs
+        kids = [track_vis_copy(st, cc, dest, -1) for st, cc in zip(src_tree[1], cobj.child_groups)]
+        return track_copy('KVis', src_tree[0], cobj, dest, d), kids
+
+    def flat(tree):
+        for k in tree[1]:
+            yield from flat(k)
+        yield tree[0]
+
+    def listed(t, on: bool, emit: bool = True):
+        h = maps[t['home']]
+        if t['kind'] == 'group':
+            if on:
+                h.groups[t['obj'].id] = t['obj']
+            else:
+                for key in [key for key, g in h.groups.items() if g is t['obj']]:
+                    del h.groups[key]
+        elif on:
+            h.vis_tree.append(t['obj'])
+        else:
+            h.vis_tree[:] = [x for x in h.vis_tree if x is not t['obj']]
+        t['inmap'] = on
+        kind = 'KGroup' if t['kind'] == 'group' else 'KVis'
+        for i in flat(t['tree']):
+            if emit:
+                ev[kind].append(f'{"WReAdd" if on else "WRemove"} {i}%nat')
+            tr[kind][i].inmap = on
+
+    def group_event():
+        r = rng.random()
+        glive = [t for t in gtops if t['obj'] is not None]
+        if r < 0.40 or not glive:
+            m = rng.randrange(3)
+            d = rng.choice([-1, -1, 0, -3, 1, 2, 2, 3, 5])
+            if rng.random() < 0.5:
+                g = EntityGroup(maps[m], d)
+                ev['KGroup'].append(f'WCreate {m}%nat {_zs(d)}')
+                tr['KGroup'].append(_Tracked(g, m))
+                t = {'kind': 'group', 'obj': g, 'tree': (len(tr['KGroup']) - 1, []), 'home': m, 'inmap': False}
+                maps[m].groups[g.id] = g
+            else:
+                v, tree = new_vis(m, d, 0)
+                t = {'kind': 'vis', 'obj': v, 'tree': tree, 'home': m, 'inmap': False}
+                maps[m].vis_tree.append(v)
+            t['inmap'] = True
+            gtops.append(t)
+            desc.append(('gcreate', t['kind'], m, d, len(list(flat(t['tree'])))))
+        elif r < 0.70:
+            t = rng.choice(glive)
+            dest = rng.randrange(3)
+            explicit = dest != t['home'] or rng.random() < 0.5
+            if not explicit:
+                dest = t['home']
+            if t['kind'] == 'group':
+                d = tr['KGroup'][t['tree'][0]].id          # EntityGroup.copy asks for the source's own ID
+                c = t['obj'].copy(maps[dest]) if explicit else t['obj'].copy()
+                tree = (track_copy('KGroup', t['tree'][0], c, dest, d), [])
+            else:
+                d = rng.choice([-1, -1, 2, 4])
+                c = t['obj'].copy(maps[dest] if explicit else None, {}, d) if rng.random() < 0.7 else \
+                    t['obj'].copy(vmf=maps[dest] if explicit else None, des_id=d)
+                tree = track_vis_copy(t['tree'], c, dest, d)
+            nt = {'kind': t['kind'], 'obj': c, 'tree': tree, 'home': dest, 'inmap': False}
+            listed(nt, True, emit=False)       # WCopy lists the copy in the destination map
+            gtops.append(nt)
+            desc.append(('gcopy', t['kind'], dest, d, explicit))
+        elif r < 0.85:
+            t = rng.choice(glive)
+            listed(t, not t['inmap'])
+            desc.append(('gremove' if not t['inmap'] else 'greadd', t['kind']))
+        else:
+            off = [t for t in glive if not t['inmap']]
+            if not off:
+                return
+            t = rng.choice(off)
+            if rng.random() < 0.5:
+                listed(t, True)
+                desc.append(('greadd', t['kind']))
+                return
+            t['obj'] = None
+            kind = 'KGroup' if t['kind'] == 'group' else 'KVis'
+            for i in flat(t['tree']):
+                tr[kind][i].ref = None
+            gc.collect(0)
+            desc.append(('gforget', t['kind']))
+
+    def track_top_copy(t, c, dest, d, explicit):
+        nt = {'kind': t['kind'], 'obj': c, 'ent': None, 'solids': [], 'home': dest, 'inmap': True}
+        csolids = c.solids if t['kind'] == 'ent' else [c]
+        # construction order: for every solid its sides, then the solid; the entity last
+        for (si, fis), cs in zip(t['solids'], csolids):
+            nf = []
+            for fi, cf in zip(fis, cs.sides):
+                # Side.copy asks for the source's own ID when a map is passed, otherwise for a fresh one
+                nf.append(track_copy('KFace', fi, cf, dest, tr['KFace'][fi].id if explicit else -1))
+            nt['solids'].append((track_copy('KSolid', si, cs, dest, d if t['kind'] == 'solid' else -1), nf))
+        if t['kind'] == 'ent':
+            nt['ent'] = track_copy('KEnt', t['ent'], c, dest, d)
+        return nt
+
+    def collapse_event():
+        # the real collapse_one: map s is used as an instance and collapsed into map dest.  The harness only reads which
+        # objects appeared in the destination's lists; which ones are copied, and in which order, is the model's business.
+        from srctools import instancing
+        from srctools.math import Matrix
+        s, dest = rng.sample(range(3), 2)
+        keep_vis = rng.random() < 0.4       # visgroup=True: the visgroup trees of the instance map are copied as well
+        nb0, ne0, nv0 = len(maps[dest].brushes), len(maps[dest].entities), len(maps[dest].vis_tree)
+        vsrcs = list(maps[s].vis_tree)
+        inst = instancing.Instance('inst', '', Vec(16, 0, 0), Matrix())
+        instancing.collapse_one(maps[dest], inst, instancing.InstanceFile(maps[s]), visgroup=keep_vis)
+        new_b, new_e = maps[dest].brushes[nb0:], maps[dest].entities[ne0:]
+        news = new_b + new_e
+        for vo, vc in zip(vsrcs, maps[dest].vis_tree[nv0:]):
+            gt = next(t for t in gtops if t['obj'] is vo)
+            gtops.append({'kind': 'vis', 'obj': vc, 'tree': track_vis_copy(gt['tree'], vc, dest, -1), 'home': dest, 'inmap': True})
+        # which source a new object was copied from is read from the tables collapse_one fills in (old ID -> new ID)
+        back_b = {new: old for old, new in inst.brush_ids.items()}
+        back_e = {new: old for old, new in inst.ent_ids.items()}
+        srcs = [next((o for o in maps[s].brushes if o.id == back_b.get(c.id)), None) for c in new_b] + \
+               [next((o for o in maps[s].entities if o.id == back_e.get(c.id)), None) for c in new_e]
+        for so, c in zip(srcs, news):
+            t = next((t for t in tops if t['obj'] is so), None)
+            if t is None:
+                nest_flag.append('collapse_one produced an object whose source is not a tracked top-level object')
+                continue
+            tops.append(track_top_copy(t, c, dest, -1, True))
+        desc.append(('collapse', s, dest, len(news), len(srcs), keep_vis, len(maps[dest].vis_tree) - nv0))
+        tev.append(f'TCollapse {s}%nat {dest}%nat {"true" if keep_vis else "false"}')
+
+    def hide_event():
+        live = [t for t in tops if t['obj'] is not None]
+        if not live:
+            return
+        t = rng.choice(live)
+        b = rng.random() < 0.6
+        if b and rng.random() < 0.5:
+            t['obj'].hidden = True
+        elif b:
+            t['obj'].vis_shown = False
+        else:
+            t['obj'].hidden = False
+            t['obj'].vis_shown = True
+        desc.append(('hide', tops.index(t), b))
+        tev.append(f'THide {tops.index(t) + 3}%nat {"true" if b else "false"}')
+
     for _ in range(n_ev):
+        if rng.random() < 0.25:
+            group_event()
+            continue
+        if rng.random() < 0.10:
+            collapse_event()
+            continue
+        if rng.random() < 0.07:
+            hide_event()
+            continue
         r = rng.random()
         live = [t for t in tops if t['obj'] is not None]
         if r < 0.30 or not live:
@@ -645,13 +926,18 @@ def gen_world_case(rng: random.Random, n_ev: int):
                 tr['KEnt'].append(_Tracked(o, m))
                 maps[m].add_ent(o)
                 tops.append({'kind': 'ent', 'obj': o, 'ent': len(tr['KEnt']) - 1, 'solids': [], 'home': m, 'inmap': True})
+                tev.append(f'TCreateEnt {m}%nat {_zs(d)} []')
             elif what == 'solid':
                 fds = [rng.choice([-1, 0, 1, 2, 4, d]) for _ in range(2)]
                 o, si = new_solid(m, d, fds)
+                tev.append(f'TCreateBrush {m}%nat ({_zs(d)}, {coq_list(_zs(x) for x in fds)})')
                 maps[m].add_brush(o)
                 tops.append({'kind': 'solid', 'obj': o, 'ent': None, 'solids': [si], 'home': m, 'inmap': True})
             else:
-                so, si = new_solid(m, rng.choice([-1, 1, 2]), [-1, rng.choice([-1, 1, 3])])
+                sd = rng.choice([-1, 1, 2])
+                fds = [-1, rng.choice([-1, 1, 3])]
+                so, si = new_solid(m, sd, fds)
+                tev.append(f'TCreateEnt {m}%nat {_zs(d)} [({_zs(sd)}, {coq_list(_zs(x) for x in fds)})]')
                 o = Entity(maps[m], {'classname': 'func_detail'}, ent_id=d, solids=[so])
                 ev['KEnt'].append(f'WCreate {m}%nat {_zs(d)}')
                 tr['KEnt'].append(_Tracked(o, m))
@@ -668,22 +954,14 @@ def gen_world_case(rng: random.Random, n_ev: int):
             if not explicit:
                 dest = t['home']
             c = t['obj'].copy(des_id=d, vmf_file=maps[dest] if explicit else None)
-            nt = {'kind': t['kind'], 'obj': c, 'ent': None, 'solids': [], 'home': dest, 'inmap': True}
-            csolids = c.solids if t['kind'] == 'ent' else [c]
-            # construction order: for every solid its sides, then the solid; the entity last
-            for (si, fis), cs in zip(t['solids'], csolids):
-                nf = []
-                for fi, cf in zip(fis, cs.sides):
-                    # Side.copy asks for the source's own ID when a map is passed, otherwise for a fresh one
-                    nf.append(track_copy('KFace', fi, cf, dest, tr['KFace'][fi].id if explicit else -1))
-                nt['solids'].append((track_copy('KSolid', si, cs, dest, d if t['kind'] == 'solid' else -1), nf))
+            nt = track_top_copy(t, c, dest, d, explicit)
             if t['kind'] == 'ent':
-                nt['ent'] = track_copy('KEnt', t['ent'], c, dest, d)
                 maps[dest].add_ent(c)
             else:
                 maps[dest].add_brush(c)
             tops.append(nt)
             desc.append(('copy', tops.index(t), dest, d, explicit))
+            tev.append(f'TCopy {tops.index(t) + 3}%nat {dest}%nat {_zs(d)} {"true" if explicit else "false"}')
             c = csolids = cs = cf = None
         elif r < 0.68:
             t = rng.choice(live)
@@ -696,6 +974,7 @@ def gen_world_case(rng: random.Random, n_ev: int):
                     ev[kind].append(f'WRemove {i}%nat')
                     tr[kind][i].inmap = False
             desc.append(('remove', tops.index(t)))
+            tev.append(f'TRemove {tops.index(t) + 3}%nat')
         elif r < 0.80:
             t = rng.choice(live)
             if t['inmap']:
@@ -710,6 +989,7 @@ def gen_world_case(rng: random.Random, n_ev: int):
                     ev[kind].append(f'WReAdd {i}%nat')
                     tr[kind][i].inmap = True
             desc.append(('readd', tops.index(t)))
+            tev.append(f'TReAdd {tops.index(t) + 3}%nat')
         else:
             t = rng.choice(live)
             if t['inmap']:
@@ -733,11 +1013,13 @@ def gen_world_case(rng: random.Random, n_ev: int):
                         tr[kind][i].inmap = False
                     else:
                         desc.append(('still-referenced', kind, i))
+                        nest_ok = False         # a part outlived its owner: not an event of the nested model
             desc.append(('destroy', tops.index(t)))
+            tev.append(f'TDestroy {tops.index(t) + 3}%nat')
         t = None
     exp = {}
     scans = [scan_map(v) for v in maps]
-    for kind, attr in (('KEnt', 'ent_id'), ('KSolid', 'solid_id'), ('KFace', 'face_id')):
+    for kind, attr in (('KEnt', 'ent_id'), ('KSolid', 'solid_id'), ('KFace', 'face_id'), ('KGroup', 'group_id'), ('KVis', 'vis_id')):
         l = []
         for x in tr[kind]:
             l += [x.id, int(x.alive), int(x.inmap), x.home]
@@ -745,6 +1027,15 @@ def gen_world_case(rng: random.Random, n_ev: int):
         exp[kind] = l
     for v in maps:
         del v.face_id.discard
+    ev['T'] = tev if nest_ok else None
+    exp['T_flag'] = nest_flag
+    # the lists of every map as the model must have them: indexes of the top-level objects in maps[m].brushes, then -1,
+    # those in maps[m].entities, then -2
+    order: list[int] = []
+    for v in maps:
+        for lst, mark in ((v.brushes, -1), (v.entities, -2)):
+            order += [next((i + 3 for i, t in enumerate(tops) if t['obj'] is o), -7) for o in lst] + [mark]
+    exp['T_order'] = order
     return ev, exp, desc, scans
 
 
@@ -753,12 +1044,13 @@ def corr_world(ck: Ck) -> None:
     from harness.common import parse_coq_N_list
     n = ck.budget(120, 1500)
     cases = []
+    nested = []
     for i in range(n):
         ev, exp, desc, scans = gen_world_case(ck.rng, ck.rng.choice([4, 8, 14, 22]))
         ck.count('world_histories')
         for d in desc:
             ck.hist('world_events', d[0])
-        if any(d[0] == 'copy' and d[4] for d in desc):
+        if any(d[0] == 'collapse' or (d[0] in ('copy', 'gcopy') and d[4]) for d in desc):
             ck.seen(('world', tuple(desc)))
         for m, sc in enumerate(scans):
             for kind, what, vals in dup_report(sc):
@@ -767,27 +1059,51 @@ def corr_world(ck: Ck) -> None:
                 ck.violation(f'xmap-{kind}-id-{what}', f'map {m}: {kind} IDs {what}: {vals} after a history over three maps',
                              {'world_history': desc, 'events_per_kind': ev,
                               'how': 'events are in the notation of SM/IdWorld.v; replay by the same calls on three VMF() objects'})
-        for kind in ('KEnt', 'KSolid', 'KFace'):
+        for kind in WORLD_KINDS:
             cases.append((kind, ev[kind], exp[kind], desc))
-    ck.sample({'world_history': cases[-3][3], 'events_per_kind': {c[0]: c[1] for c in cases[-3:]},
-               'impl(id,alive,inmap,home)*_then_next_ids': {c[0]: c[2] for c in cases[-3:]}})
-    bad = []
+        if ev['T'] is not None:
+            nested.append((ev['T'], [exp[k] for k in ('KEnt', 'KSolid', 'KFace')] + [exp['T_order']], desc))
+            ck.count('nested_histories')
+    nk = len(WORLD_KINDS)
+    ck.sample({'world_history': cases[-nk][3], 'events_per_kind': {c[0]: c[1] for c in cases[-nk:]},
+               'impl(id,alive,inmap,home)*_then_next_ids': {c[0]: c[2] for c in cases[-nk:]}})
+    # per-kind streams and bundled events are evaluated by the same coqc processes
+    exprs = []
     for lo in range(0, len(cases), 300):
         part = cases[lo:lo + 300]
         lit = coq_list(f'(({k}, {coq_list(evs)}), {coq_Z_list(exp)})' for k, evs, exp, _ in part)
-        vals = ck.coq_eval(IMPORTS, [f'bad_idx (fun c : (kind * list wev) * list Z => zl_eqb (wfull (fst (fst c)) (snd (fst c))) (snd c)) 0 {lit}'],
-                           name='world', preamble=WORLD_PRE)
-        if vals is None:
-            ck.obligation('correspondence:world', False, 'model could not be evaluated')
-            ck.tie_broken.append('correspondence multi-map lifecycle: model evaluation failed')
-            return
-        bad += [lo + i for i in parse_coq_N_list(vals[0])]
+        exprs.append(f'bad_idx (fun c : (kind * list wev) * list Z => zl_eqb (wfull (fst (fst c)) (snd (fst c))) (snd c)) 0 {lit}')
+    n_world = len(exprs)
+    for lo in range(0, len(nested), 150):
+        part = nested[lo:lo + 150]
+        lit = coq_list(f'({coq_list(t)}, (({coq_Z_list(e[0])}, {coq_Z_list(e[1])}), {coq_Z_list(e[2] + [-5] + e[3])}))' for t, e, _ in part)
+        exprs.append('bad_idx (fun c : list tev * ((list Z * list Z) * list Z) => match tfull (fst c) with (a, b, f) => '
+                     f'andb (andb (zl_eqb a (fst (fst (snd c)))) (zl_eqb b (snd (fst (snd c))))) (zl_eqb f (snd (snd c))) end) 0 {lit}')
+    res = eval_bad(ck, 'world', WORLD_PRE, exprs, per_call=6)
+    if res is None:
+        ck.obligation('correspondence:world', False, 'model could not be evaluated')
+        ck.obligation('correspondence:nested', False, 'model could not be evaluated')
+        ck.tie_broken.append('correspondence multi-map lifecycle: model evaluation failed')
+        return
+    bad = [c * 300 + i for c, idxs in enumerate(res[:n_world]) for i in idxs]
     ck.obligation('correspondence:world', not bad,
-                  f'{len(cases)} per-kind event streams of {n} histories over three maps, model wrun vs real VMF/Entity/Solid/Side/gc: {len(bad)} disagreements')
+                  f'{len(cases)} per-kind event streams of {n} histories over three maps, model wrun vs real VMF/Entity/Solid/Side/EntityGroup/VisGroup/gc: {len(bad)} disagreements')
     if bad:
         c = min((cases[i] for i in bad), key=lambda c: len(c[1]))
         ck.tie_broken.append('correspondence multi-map lifecycle (SM/IdWorld.v wrun vs copy()/add/remove/__del__ over three maps)')
         ck.extra['world_disagreement'] = {'kind': c[0], 'events': c[1], 'impl': c[2], 'history': c[3]}
+    # the same histories as bundled events on top-level objects: the model (SM/IdNest.v) decides which constructor /
+    # copy / remove / destructor calls happen for the parts, in which order and with which desired IDs
+    if nested:
+        ck.sample({'nested_events': nested[-1][0], 'impl_per_kind(id,alive,inmap,home)*_then_next_ids': nested[-1][1]})
+    bad = [c * 150 + i for c, idxs in enumerate(res[n_world:]) for i in idxs]
+    ck.obligation('correspondence:nested', not bad,
+                  f'{len(nested)} histories of bundled events on entities / brush entities / world brushes over three maps incl. the real collapse_one, '
+                  f'model trun (parts, order, desired IDs, the brush/entity lists of every map and the objects collapse_one copies decided by the model) vs the implementation: {len(bad)} disagreements')
+    if bad:
+        c = min((nested[i] for i in bad), key=lambda c: len(c[0]))
+        ck.tie_broken.append('correspondence nested objects (SM/IdNest.v trun vs Entity/Solid/Side constructors, copy(), remove, __del__)')
+        ck.extra['nested_disagreement'] = {'events': c[0], 'impl': c[1], 'history': c[2]}
 
 
 # ------------------------------------------------------------------------------------------------ nav-node IDs
@@ -795,7 +1111,7 @@ NODE_PRE = PRE + '''
 Definition nobs (w : nworld) : list Z :=
   flat_map (fun o => [match nid o with Some n => n | None => -9 end; if nalive o then 1 else 0; if ninmap o then 1 else 0]) (nents w).
 Definition nfull (es : list nev) : list Z :=
-  let w := nrun node_realloc_on_add node_release_on_remove node_release_in_del es in
+  let w := nrun node_realloc_on_add node_release_on_remove node_release_in_del node_copy_registers es in
   nobs w ++ [match get_id (-1) (nman w) with Some (i, _) => i | None => -3 end].
 '''
 
@@ -824,7 +1140,21 @@ def gen_node_case(rng: random.Random, n_ev: int):
         d = rng.choice([-1, 0, -4, 1, 2, 2, 3, 3, 5, 9])
         return d, rng.choice([str(d), d])
 
+    def reserve(val):
+        # what collapse_one does with a node-link keyvalue: Instance.fixup_key reserves an ID nobody owns (never released)
+        from srctools import instancing
+        from srctools.fgd import ValueTypes
+        from srctools.math import Matrix, Vec
+        inst = instancing.Instance('inst', '', Vec(), Matrix())
+        out = inst.fixup_key(vmf, (), rng.choice([ValueTypes.TARG_NODE_SOURCE, ValueTypes.TARG_NODE_DEST]), val)
+        if _isint(val):
+            evs.append(f'NReserve {_zs(int(val))}')
+        return out
+
     for _ in range(n_ev):
+        if rng.random() < 0.07:
+            reserve(rng.choice(['-1', '0', '1', '2', '2', '3', '5', 'abc', '']))
+            continue
         r = rng.random()
         live = [i for i, e in enumerate(ents) if e[0] is not None]
         if r < 0.30 or not live:
@@ -842,7 +1172,19 @@ def gen_node_case(rng: random.Random, n_ev: int):
             o = ents[k]
             if r < 0.45:
                 d, val = value()
-                o[0][rng.choice(['nodeid', 'NODEID'])] = val
+                how = rng.randrange(5)
+                if how < 2:
+                    o[0][rng.choice(['nodeid', 'NODEID'])] = val
+                elif how == 2:      # MutableMapping.update -> __setitem__
+                    o[0].update({rng.choice(['nodeid', 'NodeID']): val, 'spawnflags': '0'})
+                elif how == 3:
+                    o[0].update(nodeid=val)
+                else:               # the deprecated `ent.keys = {...}` setter: clear_keys() then update()
+                    import warnings
+                    with warnings.catch_warnings():
+                        warnings.simplefilter('ignore')
+                        o[0].keys = {'classname': 'info_node', 'nodeid': val}
+                    evs.append(f'NDel {k}%nat')
                 evs.append(f'NSet {k}%nat {opt(d)}')
             elif r < 0.55:
                 how = rng.randrange(3)
@@ -879,6 +1221,11 @@ def gen_node_case(rng: random.Random, n_ev: int):
                 vmf.add_ent(c)
                 ents.append([c, weakref.ref(c), None, True, True])
                 evs.append(f'NCopy {k}%nat')
+                if rng.random() < 0.4 and 'nodeid' in c:
+                    # ... followed by collapse_one's rewriting of the copy's keyvalue: reserve, then assign the reserved ID
+                    new = reserve(c['nodeid'])
+                    c['nodeid'] = new
+                    evs.append(f'NSet {len(ents) - 1}%nat {opt(int(new)) if _isint(new) else "None"}')
                 c = None
             o = None
     exp = []
@@ -890,9 +1237,17 @@ def gen_node_case(rng: random.Random, n_ev: int):
     return evs, exp, held, scan_map(vmf)
 
 
-def corr_node(ck: Ck) -> None:
+def corr_nodes(ck: Ck) -> None:
+    """Both node correspondences, evaluated by the same coqc processes."""
+    ex1, fin1 = corr_node(ck)
+    ex2, fin2 = corr_nodemaps(ck)
+    res = eval_bad(ck, 'node', NODE_PRE + NODEMAPS_PRE[len(PRE):], ex1 + ex2, per_call=6)
+    fin1(None if res is None else res[:len(ex1)])
+    fin2(None if res is None else res[len(ex1):])
+
+
+def corr_node(ck: Ck):
     """SM/IdNode.v against real histories of the 'nodeid' keyvalue (set/delete/pop/clear/copy/remove/re-add/gc)."""
-    from harness.common import parse_coq_N_list
     n = ck.budget(250, 3000)
     cases = []
     for i in range(n):
@@ -909,29 +1264,194 @@ def corr_node(ck: Ck) -> None:
                          f'existing entities hold node IDs {sorted(held)}', {'node_events': evs, 'impl': exp,
                          'how': 'events in the notation of SM/IdNode.v: NCreate = create_ent(nodeid=..), NSet = ent[nodeid]=.., NDel = del/pop/clear, NRemove/NReAdd/NGc/NCopy'})
     ck.sample({'node_events': cases[-1][0], 'impl(nid|-9,alive,inmap)*_then_next_id': cases[-1][1]})
-    bad = []
+    exprs = []
     for lo in range(0, len(cases), 400):
         part = cases[lo:lo + 400]
         lit = coq_list(f'({coq_list(evs)}, {coq_Z_list(exp)})' for evs, exp in part)
-        vals = ck.coq_eval(IMPORTS, [f'bad_idx (fun c : list nev * list Z => zl_eqb (nfull (fst c)) (snd c)) 0 {lit}'],
-                           name='node', preamble=NODE_PRE)
-        if vals is None:
-            ck.obligation('correspondence:node', False, 'model could not be evaluated')
-            ck.tie_broken.append('correspondence nav-node IDs: model evaluation failed')
-            return
-        bad += [lo + i for i in parse_coq_N_list(vals[0])]
+        exprs.append(f'bad_idx (fun c : list nev * list Z => zl_eqb (nfull (fst c)) (snd c)) 0 {lit}')
+    return exprs, lambda res: _finish_node(ck, cases, res)
+
+
+def _finish_node(ck: Ck, cases, res) -> None:
+    if res is None:
+        ck.obligation('correspondence:node', False, 'model could not be evaluated')
+        ck.tie_broken.append('correspondence nav-node IDs: model evaluation failed')
+        return
+    bad = [c * 400 + i for c, idxs in enumerate(res) for i in idxs]
     ck.obligation('correspondence:node', not bad,
-                  f"{len(cases)} histories of the 'nodeid' keyvalue, model nrun vs real Entity/VMF: {len(bad)} disagreements")
+                  f"{len(cases)} histories of the 'nodeid' keyvalue (incl. IDs reserved by Instance.fixup_key), model nrun vs real Entity/VMF: {len(bad)} disagreements")
     if bad:
         c = min((cases[i] for i in bad), key=lambda c: len(c[0]))
         ck.tie_broken.append("correspondence nav-node IDs (SM/IdNode.v nrun vs Entity.__setitem__/__delitem__/clear/__del__, VMF.add_ent/remove_ent)")
         ck.extra['node_disagreement'] = {'events': c[0], 'impl': c[1]}
 
 
+# ------------------------------------------------------------------------------------------------ nav-node IDs, several maps
+NODEMAPS_PRE = PRE + '''
+Definition mobs (w : mworld) : list Z :=
+  flat_map (fun p : nat * nat => match nth_error (nents (mmap w (fst p))) (snd p) with
+                                 | Some o => [match nid o with Some n => n | None => -9 end; if nalive o then 1 else 0;
+                                              if ninmap o then 1 else 0; Z.of_nat (fst p)]
+                                 | None => [-8] end) (mdir w).
+Definition mprobe (w : mworld) (m : nat) : Z := match get_id (-1) (nman (mmap w m)) with Some (i, _) => i | None => -3 end.
+Definition mfull (es : list mev) : list Z :=
+  let w := mrun node_realloc_on_add node_release_on_remove node_release_in_del node_copy_registers es in
+  mobs w ++ [mprobe w 0%nat; mprobe w 1%nat; mprobe w 2%nat].
+'''
+
+
+def gen_nodemaps_case(rng: random.Random, n_ev: int):
+    """A random history of 'nodeid' keyvalues over three real maps incl. cross-map copies and the real collapse_one
+    -> (events of SM/IdNodeMaps.v, expected observations, per-map lists of held IDs)."""
+    import weakref
+    from srctools import instancing
+    from srctools.fgd import ValueTypes
+    from srctools.math import Matrix, Vec
+    from srctools.vmf import VMF
+    maps = [VMF(), VMF(), VMF()]
+    ents: list[list] = []      # [obj, weakref, last nid, alive, inmap, home]
+    evs: list[str] = []
+
+    def opt(d):
+        return 'None' if d is None else f'(Some {_zs(d)})'
+
+    def value():
+        if rng.random() < 0.1:
+            return None, rng.choice(['abc', '', '3.5'])
+        d = rng.choice([-1, 0, -4, 1, 2, 2, 3, 3, 5, 9])
+        return d, rng.choice([str(d), d])
+
+    for _ in range(n_ev):
+        r = rng.random()
+        live = [i for i, e in enumerate(ents) if e[0] is not None]
+        if r < 0.28 or not live:
+            m = rng.randrange(3)
+            if rng.random() < 0.15:
+                e = maps[m].create_ent('info_target')
+                d = None
+            else:
+                d, val = value()
+                e = maps[m].create_ent('info_node', nodeid=val)
+            ents.append([e, weakref.ref(e), None, True, True, m])
+            evs.append(f'MCreate {m}%nat {opt(d)}')
+            e = None
+        elif r < 0.34:
+            m = rng.randrange(3)
+            val = rng.choice(['-1', '0', '1', '2', '3', '5', 'abc'])
+            instancing.Instance('inst', '', Vec(), Matrix()).fixup_key(
+                maps[m], (), rng.choice([ValueTypes.TARG_NODE_SOURCE, ValueTypes.TARG_NODE_DEST]), val)
+            if _isint(val):
+                evs.append(f'MReserve {m}%nat {_zs(int(val))}')
+        elif r < 0.44:
+            # the real collapse_one: map s as an instance into map dest (entities only; the harness reads which entities
+            # the instance map lists, in list order, and which objects appeared in the destination)
+            s_, dest = rng.sample(range(3), 2)
+            ks = [next(i for i, e in enumerate(ents) if e[0] is o) for o in maps[s_].entities]
+            n0 = len(maps[dest].entities)
+            inst = instancing.Instance('inst', '', Vec(8, 0, 0), Matrix())
+            instancing.collapse_one(maps[dest], inst, instancing.InstanceFile(maps[s_]))
+            for c in maps[dest].entities[n0:]:
+                ents.append([c, weakref.ref(c), None, True, True, dest])
+            evs.append(f'MCollapse {coq_list(f"{k}%nat" for k in ks)} {dest}%nat')
+            c = inst = None
+        else:
+            k = rng.choice(live)
+            o = ents[k]
+            if r < 0.56:
+                # only on node entities: collapse_one treats a 'nodeid' key by the FGD type of the entity's class, and the
+                # model is about the classes for which it is a node ID
+                if o[0]['classname'] == 'info_node':
+                    d, val = value()
+                    o[0][rng.choice(['nodeid', 'NODEID'])] = val
+                    evs.append(f'MOn {k}%nat (OSet {opt(d)})')
+            elif r < 0.64:
+                if rng.random() < 0.5:
+                    del o[0]['nodeid']
+                else:
+                    o[0].pop('NodeId')
+                evs.append(f'MOn {k}%nat ODel')
+            elif r < 0.74:
+                if o[4]:
+                    o[0].remove()
+                    o[4] = False
+                    evs.append(f'MOn {k}%nat ORemove')
+            elif r < 0.80:
+                if not o[4]:
+                    maps[o[5]].add_ent(o[0])
+                    o[4] = True
+                    evs.append(f'MOn {k}%nat OReAdd')
+            elif r < 0.87:
+                if not o[4]:
+                    o[2] = _node_of(o[0])
+                    o[0] = None
+                    gc.collect(0)
+                    if o[1]() is None:
+                        o[3] = False
+                        evs.append(f'MOn {k}%nat OGc')
+            else:
+                dest = rng.randrange(3)
+                c = o[0].copy(vmf_file=maps[dest]) if dest != o[5] or rng.random() < 0.5 else o[0].copy()
+                maps[dest].add_ent(c)
+                ents.append([c, weakref.ref(c), None, True, True, dest])
+                evs.append(f'MCopy {k}%nat {dest}%nat')
+                c = None
+            o = None
+    exp = []
+    for e in ents:
+        n = _node_of(e[0]) if e[0] is not None else e[2]
+        exp += [-9 if n is None else n, int(e[3]), int(e[4]), e[5]]
+    held = [[n for n in (_node_of(e[0]) for e in ents if e[0] is not None and e[5] == m) if n is not None] for m in range(3)]
+    exp += [v.node_id.get_id(-1) for v in maps]
+    return evs, exp, held
+
+
+def corr_nodemaps(ck: Ck):
+    """SM/IdNodeMaps.v against real histories of node entities over three maps (cross-map copy, the real collapse_one)."""
+    n = ck.budget(150, 1500)
+    cases = []
+    for i in range(n):
+        evs, exp, held = gen_nodemaps_case(ck.rng, ck.rng.choice([4, 8, 14, 24]))
+        cases.append((evs, exp))
+        ck.count('nodemaps_histories')
+        for e in evs:
+            ck.hist('nodemaps_events', e.split()[0] + (' ' + e.split()[2].strip('()') if e.startswith('MOn') else ''))
+        if any(e.startswith(('MCollapse', 'MCopy')) for e in evs):
+            ck.seen(('nodemaps', tuple(evs)))
+        for m, h in enumerate(held):
+            if len(set(h)) != len(h) or any(x <= 0 for x in h):
+                ck.violation('xmap-node-id-duplicate' if len(set(h)) != len(h) else 'xmap-node-id-nonpositive',
+                             f'map {m}: existing entities hold node IDs {sorted(h)} after a history over three maps',
+                             {'nodemaps_events': evs, 'impl': exp,
+                              'how': 'events in the notation of SM/IdNodeMaps.v on three VMF() objects: MCreate = create_ent(info_node, nodeid=..), '
+                                     'MOn k op, MCopy k m = ents[k].copy(vmf_file=maps[m]) + add_ent, MReserve = Instance.fixup_key, MCollapse = collapse_one'})
+    ck.sample({'nodemaps_events': cases[-1][0], 'impl(nid|-9,alive,inmap,home)*_then_next_ids': cases[-1][1]})
+    exprs = []
+    for lo in range(0, len(cases), 300):
+        part = cases[lo:lo + 300]
+        lit = coq_list(f'({coq_list(evs)}, {coq_Z_list(exp)})' for evs, exp in part)
+        exprs.append(f'bad_idx (fun c : list mev * list Z => zl_eqb (mfull (fst c)) (snd c)) 0 {lit}')
+    return exprs, lambda res: _finish_nodemaps(ck, cases, res)
+
+
+def _finish_nodemaps(ck: Ck, cases, res) -> None:
+    if res is None:
+        ck.obligation('correspondence:nodemaps', False, 'model could not be evaluated')
+        ck.tie_broken.append('correspondence nav-node IDs over several maps: model evaluation failed')
+        return
+    bad = [c * 300 + i for c, idxs in enumerate(res) for i in idxs]
+    ck.obligation('correspondence:nodemaps', not bad,
+                  f"{len(cases)} histories of node entities over three maps (cross-map copy, Instance.fixup_key, the real collapse_one), "
+                  f"model mrun vs the implementation: {len(bad)} disagreements")
+    if bad:
+        c = min((cases[i] for i in bad), key=lambda c: len(c[0]))
+        ck.tie_broken.append('correspondence nav-node IDs over several maps (SM/IdNodeMaps.v mrun vs Entity.copy/collapse_one/fixup_key)')
+        ck.extra['nodemaps_disagreement'] = {'events': c[0], 'impl': c[1]}
+
+
 # ------------------------------------------------------------------------------------------------ VMF.parse
 PARSE_PRE = PRE + '''
 Definition wids (k : kind) (es : list wev) : list Z := live_ids_in 0%nat (wrun (release_on_remove k) (copy_to_dest k) es).
-Definition nlive (es : list nev) : list Z := nids (nents (nrun node_realloc_on_add node_release_on_remove node_release_in_del es)).
+Definition nlive (es : list nev) : list Z := nids (nents (nrun node_realloc_on_add node_release_on_remove node_release_in_del node_copy_registers es)).
 '''
 _ID_POOL = [None, None, -1, 0, -2, 1, 1, 2, 2, 3, 4, 7]
 
@@ -1052,26 +1572,23 @@ def corr_parse(ck: Ck) -> None:
     bad = []
     wcases = [c for c in cases if c[0] != 'node']
     ncases = [c for c in cases if c[0] == 'node']
+    exprs = []
     for lo in range(0, len(wcases), 400):
         part = wcases[lo:lo + 400]
         lit = coq_list(f'(({k}, {coq_list(evs)}), {coq_Z_list(got)})' for k, evs, got, _ in part)
-        vals = ck.coq_eval(IMPORTS, [f'bad_idx (fun c : (kind * list wev) * list Z => zl_eqb (wids (fst (fst c)) (snd (fst c))) (snd c)) 0 {lit}'],
-                           name='parse', preamble=PARSE_PRE)
-        if vals is None:
-            ck.obligation('correspondence:parse', False, 'model could not be evaluated')
-            ck.tie_broken.append('correspondence VMF.parse: model evaluation failed')
-            return
-        bad += [wcases[lo + i] for i in parse_coq_N_list(vals[0])]
+        exprs.append(f'bad_idx (fun c : (kind * list wev) * list Z => zl_eqb (wids (fst (fst c)) (snd (fst c))) (snd c)) 0 {lit}')
+    n_w = len(exprs)
     for lo in range(0, len(ncases), 400):
         part = ncases[lo:lo + 400]
         lit = coq_list(f'({coq_list(evs)}, {coq_Z_list(got)})' for _, evs, got, _ in part)
-        vals = ck.coq_eval(IMPORTS, [f'bad_idx (fun c : list nev * list Z => zl_eqb (nlive (fst c)) (snd c)) 0 {lit}'],
-                           name='parsenode', preamble=PARSE_PRE)
-        if vals is None:
-            ck.obligation('correspondence:parse', False, 'model could not be evaluated')
-            ck.tie_broken.append('correspondence VMF.parse: model evaluation failed')
-            return
-        bad += [ncases[lo + i] for i in parse_coq_N_list(vals[0])]
+        exprs.append(f'bad_idx (fun c : list nev * list Z => zl_eqb (nlive (fst c)) (snd c)) 0 {lit}')
+    res = eval_bad(ck, 'parse', PARSE_PRE, exprs, per_call=6)
+    if res is None:
+        ck.obligation('correspondence:parse', False, 'model could not be evaluated')
+        ck.tie_broken.append('correspondence VMF.parse: model evaluation failed')
+        return
+    bad += [wcases[c * 400 + i] for c, idxs in enumerate(res[:n_w]) for i in idxs]
+    bad += [ncases[c * 400 + i] for c, idxs in enumerate(res[n_w:]) for i in idxs]
     ck.obligation('correspondence:parse', not bad,
                   f'{len(cases)} per-kind ID lists of {n} parsed documents (entities, brushes, faces, groups, visgroups, node IDs), '
                   f'model WParse/NCreate vs VMF.parse: {len(bad)} disagreements')
@@ -1090,15 +1607,19 @@ def _post_vis(lst):
 # ------------------------------------------------------------------------------------------------ main
 def run(ck: Ck) -> None:
     ck.rule = ('IDMan: random operation sequences over a small ID range (collisions frequent) from IDMan(existing), non-trivial = '
-               'more than 3 distinct results; lifecycle: random histories of create/copy/cross-map copy/collapse_one/remove/re-add/gc/'
+               'more than 3 distinct results (thorough: in addition every sequence of up to 4 operations over 12 operations from the empty manager); lifecycle: random histories of create/copy/cross-map copy/collapse_one/remove/re-add/gc/'
                'node edits over 7 object kinds, non-trivial = contains create and remove; world: histories over three maps of point '
-               'entities, brush entities and world brushes (nested solids and faces get their own event streams), non-trivial = '
-               'contains an explicit cross-map or same-map copy(vmf_file=...); node: histories of the nodeid keyvalue, non-trivial = '
+               'entities, brush entities, world brushes, brush groups and visgroup trees (every object gets its events in the stream of '
+               'its kind; the entity/brush/face part also runs as bundled events on top-level objects), non-trivial = '
+               'contains an explicit cross-map or same-map copy(<map>) or a collapse_one; node maps: histories of node entities over three maps '
+               'with cross-map copy, fixup_key reservations and the real collapse_one, non-trivial = contains a copy or collapse; node: histories of the nodeid keyvalue, non-trivial = '
                'at least two of set/delete/remove; parse: generated VMF documents whose ids are drawn from a small pool with '
                'missing/0/negative/colliding values, non-trivial = at least two kinds with different desired ids; fixups: random '
-               'init lists with colliding/non-positive indexes followed by set/del, non-trivial = at least two variables left; '
+               'init lists with colliding/non-positive indexes followed by set/setdefault/update, del/pop, clear, Entity.copy rebuilds and '
+               'copy/deepcopy/pickle, directly or through an Entity, non-trivial = at least two variables left (thorough: in addition every constructor '
+               'argument of up to 2 values followed by every sequence of up to 2 operations, and of 3 values followed by at most one); '
                'distinct by full sequence / text')
-    ck.trusted.append('hand-written models SM/IdMan.v, SM/IdLife.v, SM/IdWorld.v, SM/IdNode.v (tied by differential correspondence on every run)')
+    ck.trusted.append('hand-written models SM/IdMan.v, SM/IdLife.v, SM/IdFixupHist.v, SM/IdWorld.v, SM/IdNest.v, SM/IdNode.v, SM/IdNodeMaps.v (tied by differential correspondence on every run)')
     ck.assumptions.append('objects are added to the map they were constructed for (VMF.add_ent docstring); Entity._keys is only written through the mapping API')
     ok_t = ck.translate('IdSites_gen', c08_sites.translate)
     side = ck.extra.get('translated', {}).get('IdSites_gen', {})
@@ -1123,6 +1644,8 @@ def run(ck: Ck) -> None:
             'visgroup_copies_allocate_in_destination_map': 'copy_to_dest KVis',
             'group_copies_allocate_in_destination_map': 'copy_to_dest KGroup',
             'node_id_not_released_on_remove': 'negb node_release_on_remove',
+            'every_keyvalue_write_goes_through_node_registration': 'keys_writes_registered',
+            'every_fixup_table_write_is_a_modelled_operation': 'fixup_writes_modelled',
             'no_unclassified_release_site': 'forallb (fun x : kind * site * String.string => match snd (fst x) with SOther => false | _ => true end) release_sites',
         })
         corr_idman(ck)
@@ -1130,7 +1653,7 @@ def run(ck: Ck) -> None:
         ror = any(r[0] == 'KEnt' and r[1] != 'SDel' for r in side.get('releases', []))
         corr_lifecycle(ck, ror)
         corr_world(ck)
-        corr_node(ck)
+        corr_nodes(ck)
         corr_parse(ck)
     search_lifecycle(ck)
     # Failed obligations are explained when the search exhibits a concrete history of the corresponding class.
@@ -1146,17 +1669,22 @@ def run(ck: Ck) -> None:
             ck.explain(f'instance:{kind}_released_only_by_destructor')
             ck.explain('instance:each_class_uses_the_manager_of_its_kind')
             ck.explain('correspondence:world')
+            ck.explain('correspondence:nested')
         if has('xmap-' + kind + '-id-'):
             ck.explain(f'instance:{name}_copies_allocate_in_destination_map')
             ck.explain('correspondence:world')
+            ck.explain('correspondence:nested')
     if has('fixup-index'):
         ck.explain('instance:fixup_constructor_tests_positivity')
         ck.explain('instance:fixup_set_searches_from_1')
         ck.explain('instance:fixup_constructor_reinserts')
+        ck.explain('instance:every_fixup_table_write_is_a_modelled_operation')
         ck.explain('correspondence:fixup')
     if has('node-id-'):
         ck.explain('instance:node_id_not_released_on_remove')
+        ck.explain('instance:every_keyvalue_write_goes_through_node_registration')
         ck.explain('correspondence:node')
+        ck.explain('correspondence:nodemaps')
     if has('-id-nonpositive'):
         ck.explain('instance:idman_hint_lowered_only_by_positive_ids')
         ck.explain('correspondence:idman')
@@ -1165,6 +1693,10 @@ def run(ck: Ck) -> None:
         ck.explain('correspondence:idman')
     if has('parse-'):
         ck.explain('correspondence:parse')
+    if not ok_t and keys:
+        # the translator failed closed on a shape it cannot classify, and the search exhibits a concrete duplicate / non-positive
+        # ID on the same tree: the replay is the failing input of this alarm
+        ck.explain('translate:IdSites_gen')
 
 
 def replay(data: dict) -> int:
